@@ -500,9 +500,12 @@ def cholesky_band(l, mininf=0.0):
             lower[0, j] = np.sqrt(lower[0, j])
             lower[spot, j] /= lower[0, j]
             x = lower[spot, j]
-            if not np.all(np.isfinite(x)):
+            if not np.all(np.isfinite(lower[:, j])):
                 warn('NaN found in cholesky_band.', PydlutilsUserWarning)
-                return (j, l)
+                return (np.array([j]), l)
+            for k in range(kn):
+                lower[0:kn-k, j+1+k] -= x[k] * x[k:]
+        lower = lower[:, 0:n]
     #
     # Restore padding.
     #
